@@ -117,7 +117,7 @@ class LabelEvaluator:
             objs, cons, tag = objs.view(), cons.view(), tag.view()
             for a in (objs, cons, tag):
                 a.flags.writeable = False
-        res = EvaluatorResult(objectives=objs, constraints=cons, evaluation_info={"tag": tag})
+        res = EvaluatorResult(objectives=objs, constraints=cons, evaluation_info={"tag": tag}, batch_id=len(self.calls))
         k = len(self.calls)
         self.owned += [(f"call{k}.objectives", res.objectives, res.objectives.copy(), res, "objectives"),
                        (f"call{k}.constraints", res.constraints, res.constraints.copy(), res, "constraints"),
@@ -172,7 +172,7 @@ def run(sc, garbage):
         e = {"ev": "Call", "k": k, "pt": pt, "batch": batch, "R": R, "P": P, "tf": bool(cfg["tf"]), "outcome": outcome,
              "nanreal": int(sc.get("nanreal", 0)),
              "ncalls": ncalls, "reqkind": "none", "labels": [], "uvars": [], "ovars": [], "active": [], "summary": [], "values": [],
-             "weights": [[num(1.0)] * R] * 3, "failedrow": [False] * R}
+             "weights": [[num(1.0)] * R] * 3, "failedrow": [False] * R, "batchok": True}
         if outcome == "ok" and ncalls == 1:
             c = ev.calls[-1]
             labels = c["labels"]
@@ -225,6 +225,8 @@ def run(sc, garbage):
             rows = [(ow[0] if ow is not None else rw), (ow[1] if ow is not None else rw), (cw[0] if cw is not None else rw)]
             e["weights"] = nums(rows)
             e["values"] = values
+            # every result of this call carries the batch number the evaluator gave to THIS call (fresh evaluators only)
+            e["batchok"] = bool(cfg["memo"] != "fresh" or all(r.batch_id == len(ev.calls) for r in res))
             failed = (fr[0] if fr else gr).realizations.failed_realizations
             if fr and gr is not None:
                 failed = failed | gr.realizations.failed_realizations
